@@ -171,9 +171,16 @@ func main() {
 					}
 					n++
 					site := fmt.Sprintf("%s:%s#%d", fileName, fname, n)
+					iterFn := "Iter"
 					if b, ok := mt.Key().Underlying().(*types.Basic); !ok || b.Info()&types.IsOrdered == 0 {
-						rep.Native = append(rep.Native, site+" (key type "+mt.Key().String()+" has no canonical order)")
-						return true
+						switch mt.Key().Underlying().(type) {
+						case *types.Pointer, *types.Struct, *types.Array, *types.Basic:
+							// canonical order by a shallow fingerprint of the key's value
+							iterFn = "IterAny"
+						default:
+							rep.Native = append(rep.Native, site+" (key type "+mt.Key().String()+" has no canonical order)")
+							return true
+						}
 					}
 					if s.Key == nil && s.Value == nil {
 						// `for range m`: order is unobservable
@@ -216,7 +223,7 @@ func main() {
 					repl[s] = &ast.ForStmt{
 						For: s.For,
 						Init: &ast.AssignStmt{Lhs: []ast.Expr{ast.NewIdent(it)}, Tok: token.DEFINE,
-							Rhs: []ast.Expr{&ast.CallExpr{Fun: sel("verifsimrt", "Iter"), Args: []ast.Expr{s.X, &ast.BasicLit{Kind: token.INT, Value: strconv.Itoa(len(rep.Sites))}}}}},
+							Rhs: []ast.Expr{&ast.CallExpr{Fun: sel("verifsimrt", iterFn), Args: []ast.Expr{s.X, &ast.BasicLit{Kind: token.INT, Value: strconv.Itoa(len(rep.Sites))}}}}},
 						Cond: &ast.CallExpr{Fun: sel(it, "Next")},
 						Body: s.Body,
 					}
